@@ -455,6 +455,15 @@ Section AMapProofs.
       destruct (IH H') as [r [E1 [E2 E3]]].
       rewrite E1. exists ((k, v) :: r). simpl. split; [reflexivity|]. split; [congruence|]. constructor; auto.
   Qed.
+  Lemma getmany_absent d ks k : In k ks -> aget k d = None -> getmany d ks = None.
+  Proof.
+    induction ks as [|a ks IH]; simpl; [tauto|]. intros [<-|H] E.
+    - rewrite E. reflexivity.
+    - destruct (aget a d); [rewrite IH; auto|reflexivity].
+  Qed.
+  Theorem d_getitem_absent c d ks k : In k ks -> aget k d = None ->
+    d_getlist c d ks = DErr "KeyError"%string /\ d_gettuple d ks = DErr "KeyError"%string.
+  Proof. intros H E. unfold d_getlist, d_gettuple. rewrite (getmany_absent d ks k H E). auto. Qed.
   Theorem d_gettuple_spec d ks : (forall k, In k ks -> aget k d <> None) ->
     exists vs, d_gettuple d ks = DVals vs /\ Forall2 (fun k v => aget k d = Some v) ks vs.
   Proof.
